@@ -46,6 +46,7 @@ static void verif_wqcb(void *fn, struct urcu_workqueue *wq);
 #include "workqueue.c"
 
 struct urcu_workqueue W;
+extern unsigned long E_xchg_tail, E_mb_after_enq, E_futex_loads, E_futex_load_fenced;
 void *G_created_fn, *G_created_arg; unsigned long G_created_sigmask;
 static void os_create_hook(void *(*fn)(void *), void *arg) { G_created_fn = (void *) fn; G_created_arg = arg; G_created_sigmask = G_os_sig_blocked; }
 
@@ -85,6 +86,11 @@ static int os_poll_hook(void)
 static void evt(int kind, void *addr, int mo, unsigned long val)
 {
 	(void) mo;
+	if (G_mode == 5) {
+		if (kind == EV_XCHG && addr == (void *) &W.cbs_tail.p) { E_xchg_tail++; E_mb_after_enq = 1; }
+		if (kind == EV_MB && E_xchg_tail) E_mb_after_enq = 1;
+		if (kind == EV_LOAD && addr == (void *) &W.futex) { E_futex_loads++; E_futex_load_fenced = E_mb_after_enq; }
+	}
 	if (G_mode == 3 && addr == (void *) &W.flags) {
 		if (kind == EV_OR && (val & URCU_WORKQUEUE_PAUSED)) G_paused_set_quiescent = G_quiescent;
 		if (kind == EV_AND && !(val & URCU_WORKQUEUE_PAUSED)) G_paused_clr_pause = !!(W.flags & URCU_WORKQUEUE_PAUSE);
@@ -153,4 +159,36 @@ void h_wq_worker_pause(void)
 	VERIF_ASSERT(G_paused_clr_pause == 0 && !(W.flags & (URCU_WORKQUEUE_PAUSE | URCU_WORKQUEUE_PAUSED)), "worker pause: drops PAUSED only after PAUSE was cleared");
 	VERIF_ASSERT(G_calls == n && (n < 1 || G_called[0] == &IT[0]) && (n < 2 || G_called[1] == &IT[1]) && G_gp == (n ? 1 : 0) && W.qlen == 0, "worker pause: after resuming, the work queued at fork time runs exactly once each, in order");
 	VERIF_COVER(n == 2 && G_polls == 3); VERIF_COVER(n == 0);
+}
+
+/* ---- C09.O7: the work queue as used by lazy resize / destroy (no fork involved) --------------------------------------- */
+unsigned long E_xchg_tail, E_mb_after_enq, E_futex_loads, E_futex_load_fenced;
+void h_wq_queue_work(void)
+{
+	struct urcu_work NW; unsigned long n;
+	mk(); G_mode = 5; n = in_n % 3;
+	W.flags = (in_rt & 1) ? URCU_WORKQUEUE_RT : 0;
+	E_xchg_tail = E_mb_after_enq = E_futex_loads = E_futex_load_fenced = 0;
+	NW.next.next = (struct cds_wfcq_node *) 0x1234; NW.func = 0;
+	urcu_workqueue_queue_work(&W, &NW, work_fn);
+	VERIF_ASSERT(NW.func == work_fn && NW.next.next == 0 && W.cbs_tail.p == &NW.next && W.qlen == n + 1, "queue_work: item initialised, ONE enqueue at the tail (FIFO: destroy work queued after a resize runs after it), qlen + 1");
+	VERIF_ASSERT(n == 0 ? W.cbs_head.node.next == &NW.next : (n == 1 ? IT[0].next.next == &NW.next : IT[1].next.next == &NW.next), "queue_work: linked behind the previously last item");
+	if (in_rt & 1) VERIF_ASSERT(G_os_futex_wake == 0, "queue_work: a real-time worker polls, no wake-up");
+	else {
+		VERIF_ASSERT(E_futex_loads == 1 && E_futex_load_fenced, "queue_work: enqueue -> full barrier -> test of the worker's futex (no lost wake-up)");
+		VERIF_ASSERT((in_futex & 1) ? (W.futex == 0 && G_os_futex_wake == 1) : G_os_futex_wake == 0, "queue_work: FUTEX_WAKE iff the worker sleeps");
+	}
+	VERIF_COVER(n == 2 && (in_futex & 1) && !(in_rt & 1)); VERIF_COVER(n == 0);
+}
+void h_wq_iteration(void)
+{
+	unsigned long n;
+	mk(); G_mode = 6; n = in_n % 3; G_gp = 0; G_quiescent = 0;
+	W.grace_period_fct = cb_gp; W.cpu_affinity = -1;
+	W.flags = URCU_WORKQUEUE_STOP | ((in_rt & 1) ? URCU_WORKQUEUE_RT : 0);		/* STOP: exactly one pass */
+	(void) workqueue_thread(&W);
+	VERIF_ASSERT(G_calls == n && (n < 1 || G_called[0] == &IT[0]) && (n < 2 || G_called[1] == &IT[1]), "worker: every queued work item runs exactly once, in FIFO order");
+	VERIF_ASSERT(G_gp == (n ? 1UL : 0UL) && W.qlen == 0, "worker: one grace-period callback per non-empty batch; qlen adjusted");
+	VERIF_ASSERT(W.cbs_head.node.next == 0 && W.cbs_tail.p == &W.cbs_head.node && ((in_rt & 1) || W.futex == 0), "worker: queue left empty; a non real-time worker resets its futex when it stops");
+	VERIF_COVER(n == 2); VERIF_COVER(n == 0);
 }
